@@ -5,6 +5,8 @@ CONSTANTS
   Frame = 1024
   MaxOps = 5
   MaxAttacks = 1
+  AttackKinds = {"tamper", "drop", "dup", "swap", "replay", "replayfar", "reflect"}
+  FarDist = {256}
   RecordHist = FALSE
-INVARIANT TypeOK Faithful NothingLost NoSpuriousError KeySeparation
+INVARIANT TypeOK Faithful NothingLost NoSpuriousError KeySeparation NonceUnique NoReplayAccepted
 PROPERTIES DeadStays
